@@ -269,8 +269,12 @@ def ns_pair(r, max_nodes=12):
     # the prefix a URI is bound to varies from case to case (never inside one case): lxml's prefix registry is process-global,
     # so consecutive diffs in one worker process re-register the same URI under other prefixes
     alias = {p: r.choice(ALIASES[p]) for p in NS}
+    alias_r = dict(alias)
+    if r.random() < 0.25:
+        # the two documents bind the same URI to different prefixes
+        alias_r = {p: r.choice(ALIASES[p]) for p in NS}
     L.nsmap = {alias[p]: NS[p] for p in lp}
-    R.nsmap = {alias[p]: NS[p] for p in rp}
+    R.nsmap = {alias_r[p]: NS[p] for p in rp}
     L.tail = None
     R.tail = None
     return L.number(0), R.number(1000)
